@@ -268,6 +268,217 @@ def check_pubkey_derivation(rep, prog, rid):
                       'the public packet length must be recomputed', where=where, scenario=alg)
 
 
+KEY_FIELDS = ('created', 'pkalg', 'keymaterial')
+
+
+def _strip_copy(t):
+    m = re.match(r'^copy\.(?:copy|deepcopy)\((.+)\)$', t or '')
+    return m.group(1) if m else t
+
+
+def check_key_packet_rebuilds(rep, prog, rid):
+    """Every place that builds a V4 key packet out of another one (PrivKeyV4.pubkey, PubKeyV4.__copy__, the sub-key conversion in
+    PGPKey.add_subkey, any other `XKeyV4()` followed by field copies) takes creation time, algorithm and key material from ONE
+    source packet: the fields that enter the fingerprint hash travel together.
+
+    Sites are located by what they do (a function that constructs a class of the PubKeyV4 family, or `self.__class__()` inside
+    that family) and decided on interpreter store / setattr values: the rebuilt object is the base of the stores, the source is
+    the root of the stored values - local names, temporaries and statement order do not matter."""
+    fam = set(c.name for c in prog.all_classes() if any(getattr(b, 'name', None) == 'PubKeyV4' for b in c.mro()))
+    if not fam:
+        raise AnalysisError('PubKeyV4 family vanished')
+    sites = 0
+    for fn in prog.all_functions():
+        self0 = fn.params[0] if (fn.cls is not None and fn.params) else None
+        ctor = False
+        for n in ast.walk(fn.node):
+            if isinstance(n, ast.Call):
+                d = dotted(n.func) or ''
+                if d.split('.')[-1] in fam and getattr(prog.lookup(fn.module, d.split('.')[-1]), 'name', None) in fam:
+                    ctor = True
+                elif self0 is not None and fn.cls.name in fam and d in ('%s.__class__' % self0, 'type(%s)' % self0):
+                    ctor = True
+                elif self0 is not None and fn.cls.name in fam and isinstance(n.func, ast.Call) and dotted(n.func.func) == 'type':
+                    ctor = True
+        if not ctor:
+            continue
+        outs = Interp(prog, Scenario(inline=noinline, join_unknown=True)).run(fn)
+        for s in outs:
+            if s.raised:
+                continue
+            # objects that receive fingerprint fields on this path: base text -> {field: [(value text, stored sub-path)]}
+            objs = {}
+            for p, v, l, _ in s.stores:
+                parts = p.split('.')
+                for i, a in enumerate(parts):
+                    if a in KEY_FIELDS and i > 0:
+                        base = '.'.join(parts[:i])
+                        objs.setdefault(base, {}).setdefault(a, []).append((v, '.'.join(parts[i:])))
+                        break
+            for c in s.calls:
+                if c[0] == 'setattr' and len(c[1]) == 3 and c[1][0].endswith('.keymaterial'):
+                    base = c[1][0][:-len('.keymaterial')]
+                    m = re.match(r'^getattr\((.+), (.+)\)$', _strip_copy(c[1][2]))
+                    val = '%s.<%s>' % (m.group(1), m.group(2)) if m else c[1][2]
+                    objs.setdefault(base, {}).setdefault('keymaterial', []).append((val, 'keymaterial.<%s>' % c[1][1]))
+            for base, got in sorted(objs.items()):
+                if base == self0:
+                    continue                      # an object setting its own fields (__init__, parse, setters) is not a rebuild
+                srcs = {}
+                for a, vals in got.items():
+                    for v, sub in vals:
+                        v = _strip_copy(v)
+                        src = v[:-len('.' + sub)] if v.endswith('.' + sub) else None
+                        srcs.setdefault(a, []).append((src, v))
+                roots = sorted(set(src for a in srcs for src, v in srcs[a] if src is not None))
+                if not roots:
+                    continue                      # fields given by the caller (PrivKeyV4.new): a new key, not a rebuilt one
+                sites += 1
+                odd = ['%s <- %s' % (a, v) for a in sorted(srcs) for src, v in srcs[a] if src is None or src != roots[0]]
+                missing = [a for a in KEY_FIELDS if a not in srcs]
+                rep.check(len(roots) == 1 and not odd and not missing, rid, fn.qualname,
+                          'key packet %s rebuilt from %s%s%s' % (base, roots, '; other: %s' % odd if odd else '', '; not copied: %s' % missing if missing else ''),
+                          'a key packet rebuilt from another must take creation time, algorithm and key material from that one packet '
+                          '(they enter the fingerprint together)', where=fn.where,
+                          expected='%s.created / .pkalg / .keymaterial <- one source packet' % base,
+                          found={a: [v for _, v in srcs[a]] for a in sorted(srcs)},
+                          detail='key packet %s: created / pkalg / keymaterial all from %s' % (base, roots[0]))
+    return sites
+
+
+def _serialised_attrs(prog, K):
+    """Instance attributes of K whose values decide the octets K serialises to (read off the interpreted serialiser: return
+    terms and branch conditions), or None if K has no serialiser."""
+    fi = K.find_method('__bytearray__') or K.find_method('to_mpibytes')
+    if fi is None:
+        return None
+    first = fi.params[0]
+    names = set()
+    for s in Interp(prog, Scenario(self_cls=K)).run(fi):
+        texts = [f[0] for f in s.facts]
+        if not s.raised:
+            texts.append(render(s.ret))
+        for t in texts:
+            names.update(re.findall(r'(?<![\w.])%s\.([A-Za-z_]\w*)' % re.escape(first), t))
+    out = set()
+    for a in names:
+        if a.startswith('__') or K.find_method(a) is not None and K.find_prop(a) is None and K.find_plain_prop(a) is None:
+            continue
+        out.add(a)
+    return out
+
+
+def _mpis_names(prog, K, after=None):
+    """Names K().__mpis__ yields (class-level tuple, or a generator property chaining super().__mpis__), else None."""
+    mro = K.mro()
+    if after is not None:
+        mro = mro[mro.index(after) + 1:]
+    for c in mro:
+        if '__mpis__' in c.attrs:
+            try:
+                return list(ast.literal_eval(c.attrs['__mpis__']))
+            except ValueError:
+                return None
+        getter = (c.plain_props.get('__mpis__') or {}).get('get')
+        if getter is None:
+            continue
+        names = []
+        outs = Interp(prog, Scenario(self_cls=K, inline=noinline)).run(getter)
+        if len(outs) != 1:
+            return None
+        for y in outs[0].yields:
+            t = render(y)
+            m = re.match(r"^'(\w+)'$", t)
+            if m:
+                names.append(m.group(1))
+            elif re.match(r'^EACH\((\$[\d.]+) in super\(\)\.__mpis__;\1\)$', t):
+                sup = _mpis_names(prog, K, after=c)
+                if sup is None:
+                    return None
+                names.extend(sup)
+            else:
+                return None
+        return names
+    return None
+
+
+def check_copy_carries_serialised(rep, prog, rid):
+    """The octets of the public key material enter the fingerprint, so a copy must serialise to the same octets: `__copy__` of
+    every key-material class and of every field class its serialised attributes hold (ECPoint, ...) carries each attribute
+    the serialiser reads over from the source object - it is not recomputed from the value, defaulted or normalised.
+
+    Decided on interpreter values: the attributes read are those occurring in the interpreted serialiser's terms and branch
+    conditions; the copy is the object `__copy__` returns, with its stores / setattr calls (super().__copy__ chains inlined)."""
+    from . import tables
+    f, tbl = tables.keymaterial_table(prog)
+    fields = prog.module('pgpy.packet.fields')
+    todo, seen = [], set()
+    for (pub, a), cn in sorted(tbl.items(), key=lambda kv: (not kv[0][0], kv[1])):
+        K = fields.classes.get(cn)
+        if K is None:
+            raise AnalysisError('key material class %s not found' % cn)
+        if K.name not in seen:
+            seen.add(K.name)
+            sib = fields.classes.get(tbl.get((True, a))) if not pub else K
+            todo.append((K, sib, 'key material'))
+    n = 0
+    while todo:
+        K, reads_of, what = todo.pop(0)
+        R = _serialised_attrs(prog, reads_of if reads_of is not None else K)
+        if R is None:
+            continue
+        # field classes held in the serialised attributes (self.p = ECPoint(..)) are copied attribute-wise by the same chain
+        for c in K.mro():
+            for m in c.methods.values():
+                p0 = m.params[0] if m.params else None
+                for x in ast.walk(m.node):
+                    if isinstance(x, ast.Assign) and isinstance(x.value, ast.Call) and len(x.targets) == 1 and \
+                            isinstance(x.targets[0], ast.Attribute) and isinstance(x.targets[0].value, ast.Name) and \
+                            x.targets[0].value.id == p0 and x.targets[0].attr in R:
+                        fc = prog.resolve_class_expr(m.module, x.value.func)
+                        if fc is not None and fc.name not in seen:
+                            seen.add(fc.name)
+                            todo.append((fc, None, 'field of %s.%s' % (K.name, x.targets[0].attr)))
+        cp = K.find_method('__copy__')
+        if cp is None:
+            rep.ok(rid, '%s.__copy__' % K.name, 'no __copy__: the default shallow copy carries every attribute (%s)' % what)
+            n += 1
+            continue
+        kmro = K.mro()
+        pol = lambda fi, kmro=kmro: fi.cls is not None and fi.cls in kmro and fi.name not in ('__bytearray__', 'to_mpibytes', '__len__', '__init__')  # noqa: E731
+        first = cp.params[0]
+        outs = [s for s in Interp(prog, Scenario(self_cls=K, inline=pol, max_depth=4)).run(cp) if not s.raised]
+        if not outs:
+            raise AnalysisError('%s.__copy__ never returns' % K.name)
+        mpis = None
+        for s in outs:
+            X = render(s.ret)
+            carried = {}
+            for p, v, l, _ in s.stores:
+                if p.startswith(X + '.') and '.' not in p[len(X) + 1:]:
+                    carried[p[len(X) + 1:]] = v
+            for c in s.calls:
+                if c[0] == 'setattr' and len(c[1]) == 3 and c[1][0] == X:
+                    name, val = c[1][1], c[1][2]
+                    m = re.match(r"^'(\w+)'$", name)
+                    if m:
+                        carried[m.group(1)] = val
+                    elif s.bound.get(name) == first + '.__mpis__' and _strip_copy(val) == 'getattr(%s, %s)' % (first, name):
+                        if mpis is None:
+                            mpis = _mpis_names(prog, K) or []
+                        for a in mpis:
+                            carried.setdefault(a, '%s.%s' % (first, a))
+            bad = sorted(a for a in R if _strip_copy(carried.get(a)) != '%s.%s' % (first, a))
+            n += 1
+            rep.check(not bad, rid, '%s.__copy__' % K.name,
+                      'copy carries %s%s' % (sorted(R), '; NOT carried from the source: %s' % ['%s = %s' % (a, carried.get(a)) for a in bad] if bad else ''),
+                      'a copy must serialise to the same octets as its source (%s enters the fingerprint): every attribute the serialiser reads '
+                      'must be carried over from the source object, not recomputed or defaulted' % what, where=cp.where,
+                      expected={a: '%s.%s' % (first, a) for a in sorted(R)}, found={a: carried.get(a) for a in sorted(R)},
+                      detail='copy carries every serialised attribute %s from the source (%s)' % (sorted(R), what))
+    return n
+
+
 def _bind_call(fi, call):
     """{parameter name: argument text} of a recorded call (func_text, [args], {kw}, ...) to the function `fi`: positional and
     keyword spellings of the same call give the same binding."""
